@@ -85,6 +85,9 @@ def harnesses(tier, seed):
         if s.name in ("L_selfref", "L_self_toml", "L_self_msgpack", "L_self_orjson"):
             continue  # typing.Self is not supported by the schema generator at all (raises TypeError): outside C06, see C20
         for variant in variants:
+            has_dc = any(k in s.texpr for k in ("Mix", "Plain", "Inh", "Gen", "Al", "Two", "NT", "TDict", "OptD", "Lvl", "Nt", "OuterG"))
+            if variant in ("d2020_refs", "oapi_inline") and not has_dc:
+                continue
             if tier == "quick" and variant == "oapi" and not any(
                     k in s.texpr for k in ("Mix", "Plain", "Inh", "Gen", "Al", "Two", "NT", "TDict", "OptD", "SelfRef", "Lvl", "Nt", "OuterG")):
                 continue  # without dataclasses the OpenAPI variant differs from Draft 2020-12 only in the dialect URI
